@@ -103,6 +103,20 @@ Definition is_reg (s : stat) : bool := N.eqb (unix_type_of_gomode (st_mode s)) S
 Definition group_rep (s : stat) : bytes :=
   match st_linkname s with [] => st_path s | l => l end.
 
+(* the xattr clause of the statement speaks of "every regular file ... the transfer CREATED": for a
+   hard-link entry (a further name of an inode) that is the case only when the inode itself was
+   created by this transfer, i.e. when the first name of its group was — a new name for a file
+   that stays in place shows that file's xattrs, which the property does not claim
+   (corpus/C01: stale-xattrs-on-new-hardlink).  For every other entry: created_by_transfer. *)
+Definition inode_created (prior src : list entry) (s : stat) : bool :=
+  created_by_transfer prior s &&
+  (if is_reg s then
+     match st_linkname s with
+     | [] => true
+     | l => match find_entry l src with Some (t, _) => created_by_transfer prior t | None => false end
+     end
+   else true).
+
 Definition links_ok (src : list entry) (dest : list raw) : bool :=
   let regs := filter (fun e => is_reg (fst e)) src in
   forallb (fun e1 => forallb (fun e2 =>
@@ -130,23 +144,138 @@ Definition prior_unchanged (ps : stat) (content : bytes) (d : raw) : bool :=
   && (if N.eqb ty S_IFREG then bytes_eqb content (r_content d) && N.eqb (st_mtime ps) (r_mtime d) else true)
   && (if N.eqb ty S_IFLNK then bytes_eqb (st_linkname ps) (r_target d) else true).
 
-Definition converged (merge : bool) (prior src : list entry) (dest : list raw) : bool :=
+(* ---- the observation of one destination entry the relation is stated on.  The raw lstat
+        record is projected by [obs_of_raw] (type bits, permission + special bits, glibc
+        major/minor); the abstract receiver model (Model/AbsDest.v) is projected onto the same
+        record by Model/ConvergeA.v [view_of], so that ONE relation judges both the real
+        snapshot and the model's result. ---- *)
+Record obs := {
+  o_path : bytes; o_type : N; o_perm : N; o_uid : N; o_gid : N; o_mtime : N;
+  o_content : bytes; o_target : bytes; o_major : N; o_minor : N; o_ino : N;
+  o_xattrs : list (bytes * bytes) }.
+
+Definition obs_of_raw (d : raw) : obs :=
+  {| o_path := r_path d; o_type := raw_type d; o_perm := N.land (r_mode d) 4095;
+     o_uid := r_uid d; o_gid := r_gid d; o_mtime := r_mtime d; o_content := r_content d;
+     o_target := r_target d; o_major := dev_major (r_rdev d); o_minor := dev_minor (r_rdev d);
+     o_ino := r_ino d; o_xattrs := r_xattrs d |}.
+
+Definition entry_matches_o (created : bool) (s : stat) (content : bytes) (d : obs) : bool :=
+  let m := st_mode s in
+  let ty := unix_type_of_gomode m in
+  bytes_eqb (st_path s) (o_path d)
+  && N.eqb ty (o_type d)
+  && (N.eqb ty S_IFLNK || N.eqb (unix_perm_of_gomode m) (o_perm d))
+  && N.eqb (st_uid s) (o_uid d) && N.eqb (st_gid s) (o_gid d)
+  && (if N.eqb ty S_IFDIR then negb created || N.eqb (st_mtime s) (o_mtime d)
+      else N.eqb (st_mtime s) (o_mtime d))
+  && (if N.eqb ty S_IFREG then bytes_eqb content (o_content d) else true)
+  && (if N.eqb ty S_IFLNK then bytes_eqb (st_linkname s) (o_target d) else true)
+  && (if N.eqb ty S_IFCHR || N.eqb ty S_IFBLK
+      then N.eqb (st_devmajor s) (o_major d) && N.eqb (st_devminor s) (o_minor d)
+      else true)
+  && (if created && (N.eqb ty S_IFREG || N.eqb ty S_IFDIR) then xattrs_eqb (st_xattrs s) (o_xattrs d) else true).
+
+Fixpoint find_obs (p : bytes) (l : list obs) : option obs :=
+  match l with
+  | [] => None
+  | d :: r => if bytes_eqb p (o_path d) then Some d else find_obs p r
+  end.
+
+Definition links_ok_o (src : list entry) (dest : list obs) : bool :=
+  let regs := filter (fun e => is_reg (fst e)) src in
+  forallb (fun e1 => forallb (fun e2 =>
+    match find_obs (st_path (fst e1)) dest, find_obs (st_path (fst e2)) dest with
+    | Some d1, Some d2 =>
+      Bool.eqb (bytes_eqb (group_rep (fst e1)) (group_rep (fst e2))) (N.eqb (o_ino d1) (o_ino d2))
+    | _, _ => false
+    end) regs) regs.
+
+Definition prior_unchanged_o (ps : stat) (content : bytes) (d : obs) : bool :=
+  let ty := unix_type_of_gomode (st_mode ps) in
+  N.eqb ty (o_type d)
+  && (N.eqb ty S_IFLNK || N.eqb (unix_perm_of_gomode (st_mode ps)) (o_perm d))
+  && N.eqb (st_uid ps) (o_uid d) && N.eqb (st_gid ps) (o_gid d)
+  && (if N.eqb ty S_IFREG then bytes_eqb content (o_content d) && N.eqb (st_mtime ps) (o_mtime d) else true)
+  && (if N.eqb ty S_IFLNK then bytes_eqb (st_linkname ps) (o_target d) else true).
+
+(* THE executable convergence relation (Proofs/OracleP.v: equivalent to the declarative
+   [approx] / [approx_merge] below) *)
+Definition converged_o (merge : bool) (prior src : list entry) (dest : list obs) : bool :=
   (* every source entry is there and equal *)
-  forallb (fun e => match find_raw (st_path (fst e)) dest with
-                    | Some d => entry_matches (created_by_transfer prior (fst e)) (fst e) (snd e) d
+  forallb (fun e => match find_obs (st_path (fst e)) dest with
+                    | Some d => entry_matches_o (inode_created prior src (fst e)) (fst e) (snd e) d
                     | None => false end) src
   (* nothing else is there, except (merge) untouched prior entries *)
-  && forallb (fun d => match find_entry (r_path d) src with
+  && forallb (fun d => match find_entry (o_path d) src with
                        | Some _ => true
-                       | None => merge && kept_in_merge src (r_path d)
-                                 && match find_entry (r_path d) prior with
-                                    | Some (ps, c) => prior_unchanged ps c d
+                       | None => merge && kept_in_merge src (o_path d)
+                                 && match find_entry (o_path d) prior with
+                                    | Some (ps, c) => prior_unchanged_o ps c d
                                     | None => false end
                        end) dest
   (* merge deletes nothing the source does not replace *)
   && (negb merge || forallb (fun e => negb (kept_in_merge src (st_path (fst e)))
-                                      || match find_raw (st_path (fst e)) dest with Some _ => true | None => false end) prior)
-  && links_ok src dest.
+                                      || match find_obs (st_path (fst e)) dest with Some _ => true | None => false end) prior)
+  && links_ok_o src dest.
+
+(* what the harness evaluates on the raw snapshot of the real destination *)
+Definition converged (merge : bool) (prior src : list entry) (dest : list raw) : bool :=
+  converged_o merge prior src (map obs_of_raw dest).
+
+(* ---- the same relation as propositions: the "equal" of the property statement ---- *)
+Definition entry_ok (created : bool) (s : stat) (content : bytes) (d : obs) : Prop :=
+  let ty := unix_type_of_gomode (st_mode s) in
+  o_path d = st_path s                                                        (* path *)
+  /\ o_type d = ty                                                            (* entry type *)
+  /\ (ty <> S_IFLNK -> o_perm d = unix_perm_of_gomode (st_mode s))            (* permission + suid/sgid/sticky *)
+  /\ o_uid d = st_uid s /\ o_gid d = st_gid s                                 (* owner *)
+  /\ (ty <> S_IFDIR -> o_mtime d = st_mtime s)                                (* ns mtime of every non-directory *)
+  /\ (ty = S_IFDIR -> created = true -> o_mtime d = st_mtime s)               (* ... and of created directories *)
+  /\ (ty = S_IFREG -> o_content d = content)                                  (* file bytes *)
+  /\ (ty = S_IFLNK -> o_target d = st_linkname s)                             (* symlink target *)
+  /\ (ty = S_IFCHR \/ ty = S_IFBLK -> o_major d = st_devmajor s /\ o_minor d = st_devminor s)
+  /\ (created = true -> ty = S_IFREG \/ ty = S_IFDIR -> o_xattrs d = st_xattrs s).
+
+(* equal path set *)
+Definition same_paths (src : list entry) (dest : list obs) : Prop :=
+  forall p, (exists d, find_obs p dest = Some d) <-> (exists e, In e src /\ st_path (fst e) = p).
+
+(* hard-link groups, as a partition of the paths of regular files: two paths show one
+   inode in the destination iff they are in one link group of the source *)
+Definition link_partition (src : list entry) (dest : list obs) : Prop :=
+  forall e1 e2 d1 d2, In e1 src -> In e2 src -> is_reg (fst e1) = true -> is_reg (fst e2) = true ->
+    find_obs (st_path (fst e1)) dest = Some d1 -> find_obs (st_path (fst e2)) dest = Some d2 ->
+    (o_ino d1 = o_ino d2 <-> group_rep (fst e1) = group_rep (fst e2)).
+
+(* dest "equals" the source view src, having started from prior (fresh / dirty mode) *)
+Definition approx (prior src : list entry) (dest : list obs) : Prop :=
+  same_paths src dest
+  /\ (forall s c, In (s, c) src ->
+        exists d, find_obs (st_path s) dest = Some d /\ entry_ok (inode_created prior src s) s c d)
+  /\ link_partition src dest.
+
+Definition prior_ok (ps : stat) (content : bytes) (d : obs) : Prop :=
+  let ty := unix_type_of_gomode (st_mode ps) in
+  o_type d = ty
+  /\ (ty <> S_IFLNK -> o_perm d = unix_perm_of_gomode (st_mode ps))
+  /\ o_uid d = st_uid ps /\ o_gid d = st_gid ps
+  /\ (ty = S_IFREG -> o_content d = content /\ o_mtime d = st_mtime ps)
+  /\ (ty = S_IFLNK -> o_target d = st_linkname ps).
+
+(* merge mode: dest is the overlay of src over prior — every source entry is there and equal;
+   whatever else is there is an untouched prior entry that the source neither names nor
+   covers with a non-directory; and every such prior entry is still there *)
+Definition approx_merge (prior src : list entry) (dest : list obs) : Prop :=
+  (forall s c, In (s, c) src ->
+        exists d, find_obs (st_path s) dest = Some d /\ entry_ok (inode_created prior src s) s c d)
+  /\ (forall d, In d dest ->
+        (exists e, In e src /\ st_path (fst e) = o_path d) \/
+        (kept_in_merge src (o_path d) = true /\
+         exists ps c, find_entry (o_path d) prior = Some (ps, c) /\ prior_ok ps c d))
+  /\ (forall e, In e prior -> kept_in_merge src (st_path (fst e)) = true ->
+        exists d, find_obs (st_path (fst e)) dest = Some d)
+  /\ link_partition src dest.
 
 (* hypothesis of C01/C02 in dirty mode: same identity key => same bytes *)
 Definition identity_key_eqb (a b : stat) : bool :=
@@ -180,7 +309,7 @@ Definition entry_mismatch (created : bool) (s : stat) (content : bytes) (d : raw
 
 Definition converged_diag (merge : bool) (prior src : list entry) (dest : list raw) : list sx :=
   flat_map (fun e => match find_raw (st_path (fst e)) dest with
-                     | Some d => let c := entry_mismatch (created_by_transfer prior (fst e)) (fst e) (snd e) d in
+                     | Some d => let c := entry_mismatch (inode_created prior src (fst e)) (fst e) (snd e) d in
                                  if N.eqb c 0 then [] else [SL [SB (st_path (fst e)); SN c]]
                      | None => [SL [SB (st_path (fst e)); SN 100]] end) src
   ++ flat_map (fun d => match find_entry (r_path d) src with
